@@ -5,6 +5,7 @@ use std::io::{BufRead, Write};
 mod util;
 mod keydir;
 mod engine;
+mod clean;
 
 fn main() {
     let args: Vec<String> = std::env::args().collect();
